@@ -17,7 +17,7 @@ RULE = ("script: a harness thread on loopback writes a known pseudo-random strea
         "upper-bound overrun is inconclusive. non-trivial = at least one timeout or fragment boundary exercised; distinct = distinct scripts")
 ASSUMPTIONS = ["the kernel's loopback TCP delivers what was written", "timing verdicts are one-sided (not before 0.8 x timeout)"]
 SHARDS = {"quick": 8, "thorough": 16}
-TIME_BUDGET = {"quick": 90, "thorough": 900}
+TIME_BUDGET = {"quick": 300, "thorough": 1800}
 FLOORS = {"quick": {"scripts": 30, "reads_checked": 800, "timeouts_observed": 15, "reconnects": 10, "sessions": 2, "distinct": 30}, "thorough": {"scripts": 300, "timeouts_observed": 200, "sessions": 8}}
 
 
